@@ -1084,3 +1084,129 @@ def check_updates(ctx, rid, prop):
     r.stat('entries', len(tab))
     r.floor(found, int(len(tab) * 0.8) if len(tab) >= 5 else 0, 'reviewed in-place updates found in the tree')
     return r
+
+
+# ------------------------------------------------------------------------------------------------ path-count census
+
+COUNTS = os.path.join(HERE, 'rules', 'counts.json')
+_H2P = ('proto::', 'frame::', 'codec::', 'hpack::', 'client::', 'server::', 'share::', 'ext::', 'error::')
+
+
+def _is_mut_ref_arg(f, t, k=0):
+    """the k-th argument of call `t` is a `&mut` borrow taken for the call (the callee can change the object)"""
+    if len(t['a']) <= k:
+        return False
+    l = core.op_local(t['a'][k])
+    hops = 0
+    while l is not None and hops < 4:
+        d = f.single_def(l)
+        if d is None or d[0] != 's':
+            # an argument of the enclosing function that is itself `&mut T`
+            return 1 <= l <= f.argc and str(f.local_ty(l)).startswith('&mut ')
+        rv = d[3]
+        if rv[0] == 'ref':
+            return bool(rv[1])
+        if rv[0] == 'use':
+            l = core.op_local(rv[1])
+            hops += 1
+            continue
+        return False
+    return False
+
+
+def effect_calls(F, f):
+    """{callee: [block, ...]} of the call sites of `f` that can change something: the callee gets a `&mut` borrow as its
+    first argument (h2 methods, BufMut::put_*, Buf::advance, truncate, VecDeque::push_back ...), is a waker, a callback
+    (`f(x)`), or mem::replace / take / swap.  Getters, conversions, clones, combinators and tracing are not effects."""
+    out = {}
+    for bi, t in f.calls():
+        if t.get('exp'):
+            continue
+        fn = t['fn']
+        short = fn.rsplit('::', 1)[-1]
+        if short in ('deref', 'deref_mut', 'clone', 'into', 'from', 'as_ref', 'as_mut', 'borrow', 'borrow_mut', 'fmt', 'branch', 'from_residual', 'into_iter', 'next', 'iter', 'iter_mut', 'new', 'lock', 'unwrap', 'expect', 'map', 'map_err', 'ok_or', 'and_then', 'take', 'as_mut_slice', 'get_mut', 'get_ref', 'index_mut', 'index', 'as_pin_mut'):
+            continue
+        eff = _is_mut_ref_arg(f, t, 0) or fn.startswith(('std::task::Waker::wake', 'std::mem::replace', 'std::mem::swap', 'std::mem::take', 'std::ops::FnMut::call_mut', 'std::ops::FnOnce::call_once', 'std::ops::Fn::call'))
+        if not eff:
+            continue
+        if fn.startswith(('std::fmt', 'core::fmt', 'tracing', 'std::option::Option::', 'std::result::Result::', 'std::pin::Pin')):
+            continue
+        out.setdefault(fn, []).append(bi)
+    return out
+
+
+def path_counts(f, blocks):
+    """(min, max) number of the given blocks on a path from the entry to a return (loops are passed once: back edges are
+    ignored; paths that end in a panic do not count)"""
+    marks = set(blocks)
+    back = set(f.back_edges())
+    memo = {}
+    rets = set(f.returns())
+    live = f.live
+    import sys
+    sys.setrecursionlimit(10000)
+
+    def go(b, stack):
+        if b in memo:
+            return memo[b]
+        here = 1 if b in marks else 0
+        if b in rets:
+            memo[b] = (here, here)
+            return memo[b]
+        best = None
+        for s in f.succ[b]:
+            if (b, s) in back or s in stack or s not in live:
+                continue
+            r = go(s, stack | {b})
+            if r is None:
+                continue
+            best = r if best is None else (min(best[0], r[0]), max(best[1], r[1]))
+        memo[b] = None if best is None else (best[0] + here, best[1] + here)
+        return memo[b]
+    return go(0, frozenset()) or (0, 0)
+
+
+def check_counts(ctx, rid, prop):
+    """reviewed effects are still performed as often along a path as reviewed"""
+    r = ctx.rule(rid, 'PASS', 'path-count census: along the paths of each reviewed function a reviewed effect (call of a mutating method, buffer write, callback, field write) still occurs at least as often as reviewed -- minimum and maximum over all entry-to-return paths (hoisting, merging or restructuring branches keeps both; deleting a statement lowers one)')
+    F = ctx.facts
+    with open(COUNTS) as fh:
+        tab = [e for e in json.load(fh) if prop in e['props']]
+    found = 0
+    cache = {}
+    for e in tab:
+        f = F.fn(e['fn'])
+        if f is None:
+            r.ok('absent|%s|%s' % (e['fn'], e['what']), '', 'function not present in this configuration (not a violation)')
+            continue
+        found += 1
+        if e['what'].startswith('call:') and e['what'][5:].lstrip('<').startswith(_H2P) and F.fn(e['what'][5:]) is None and e['what'][5:] not in getattr(F, 'renamed', {}).values():
+            r.ok('gone|%s|%s' % (e['fn'], e['what']), f.file, 'the callee no longer exists (inlined by hand or removed together with its callers) -- not compared')
+            continue
+
+        def counts_of(g):
+            if e['what'].startswith('call:'):
+                if g.name not in cache:
+                    cache[g.name] = effect_calls(F, g)
+                blocks = cache[g.name].get(e['what'][5:], [])
+            else:
+                owner, field = e['what'][6:].rsplit('.', 1)
+                blocks = sorted(set(bi for bi, si, pl, rv, ln in g.stmts() if core.write_target(g, pl) == (owner, field)))
+            return path_counts(g, blocks)
+        mn, mx = counts_of(f)
+        ok = mn >= e['min'] and mx >= e['max']
+        if not ok and '::{closure' in e['fn']:
+            # closures are numbered in source order: one more or one fewer closure in the parent renumbers them, and a closure
+            # body may have been written in line -- the effect must be found in the parent or one of its closures
+            for g in _family(F, e['fn'].split('::{closure')[0]):
+                m2, x2 = counts_of(g)
+                # (written in line the effect sits behind the test that used to decide whether the closure runs: only the
+                # maximum is comparable)
+                if x2 >= e['max'] and (m2 >= e['min'] or g.name != f.name):
+                    ok, mn, mx = True, m2, x2
+                    break
+        r.check(ok, 'count|%s|%s' % (e['fn'].replace('proto::streams::', ''), e['what']), f.file,
+                '%s performs %s between %d and %d times along a path (reviewed: %d to %d). %s' % (e['fn'].split('::')[-1] if 'closure' not in e['fn'] else e['fn'].split('::')[-2] + '::{closure}', e['what'], mn, mx, e['min'], e['max'], e['why']))
+    r.stat('entries', len(tab))
+    r.floor(found, int(len(tab) * 0.8) if len(tab) >= 5 else 0, 'reviewed functions found in the tree')
+    return r
